@@ -193,6 +193,91 @@ func runC01(c *kit.Ctx) {
 			}
 		})
 		c.Check(good, mtp, "group-by-call-region", mtp.Pos(), "actions are grouped under c.Region() of each call", "multi.toProto no longer groups actions by the region of the call")
+		// the group an action is appended to is looked up (or created) in the same iteration under the
+		// region of the call being converted: nothing is carried over from a previous call
+		{
+			isCurRegion := func(v ssa.Value) (ssa.Instruction, bool) {
+				call, ok := kit.Root(v).(*ssa.Call)
+				if !ok || kit.CalleeName(call) != hrpcCall+"Region" {
+					return nil, false
+				}
+				if l, ok := kit.Root(call.Call.Value).(*ssa.UnOp); ok {
+					if ia, ok := l.X.(*ssa.IndexAddr); ok {
+						if _, isRange := rangeOfIndex(ia.Index); isRange {
+							return l, true
+						}
+					}
+				}
+				return nil, false
+			}
+			n := 0
+			kit.Instrs(mtp, func(in ssa.Instruction) {
+				st, ok := in.(*ssa.Store)
+				if !ok {
+					return
+				}
+				fa, ok := st.Addr.(*ssa.FieldAddr)
+				if !ok || kit.FieldVar(fa.X.Type(), fa.Field).Name() != "pbs" {
+					return
+				}
+				n++
+				why := ""
+				seen := map[ssa.Value]bool{}
+				var walk func(v ssa.Value)
+				walk = func(v ssa.Value) {
+					v = kit.Root(v)
+					if seen[v] || why != "" {
+						return
+					}
+					seen[v] = true
+					switch x := v.(type) {
+					case *ssa.Phi:
+						for _, e := range x.Edges {
+							walk(e)
+						}
+						// a phi at a loop head carries the group of an earlier call
+						for i, pred := range x.Block().Preds {
+							if x.Block().Dominates(pred) && i < len(x.Edges) {
+								why = "the group is carried over from the previous iteration (" + c.P.Pos(x.Pos()) + ")"
+							}
+						}
+					case *ssa.Extract:
+						lk, ok := x.Tuple.(*ssa.Lookup)
+						if !ok {
+							why = "group comes from " + x.Tuple.String()
+							return
+						}
+						if _, ok := isCurRegion(lk.Index); !ok {
+							why = "group looked up under a key that is not the current call's Region()"
+						}
+					case *ssa.Lookup:
+						if _, ok := isCurRegion(x.Index); !ok {
+							why = "group looked up under a key that is not the current call's Region()"
+						}
+					case *ssa.Alloc:
+						// fresh group: must be registered under the current call's region
+						reg := false
+						for _, r := range kit.Referrers(x) {
+							if mu, ok := r.(*ssa.MapUpdate); ok && mu.Value == ssa.Value(x) {
+								if _, ok := isCurRegion(mu.Key); ok {
+									reg = true
+								}
+							}
+						}
+						if !reg {
+							why = "a fresh group is not registered under the current call's Region()"
+						}
+					default:
+						why = "group comes from " + v.String()
+					}
+				}
+				walk(fa.X)
+				c.Check(why == "", mtp, "action-joins-own-region-group", st.Pos(), "the action is appended to the group found or created under c.Region() in this iteration", "an action can be appended to the group of another region: "+why+"; the call is then sent inside another region's RegionAction")
+			})
+			if n == 0 {
+				c.Unk(mtp, "action-joins-own-region-group", mtp.Pos(), "no append to a per-region action list found")
+			}
+		}
 	}
 
 	// ---- R2 ---------------------------------------------------------------
@@ -244,91 +329,11 @@ func runC01(c *kit.Ctx) {
 		}
 	}
 
+	discoverersDetachOverlaps(c)
+
 	// ---- R3 ---------------------------------------------------------------
 	c.StartRule("R3", "both lookup validators check table and key < stop", 6)
-	validators := []struct {
-		fn     *ssa.Function
-		source string
-		idx    int
-	}{{grc, kit.M("", "*keyRegionCache", "get"), 1}, {ml, kit.M("region", "", "ParseRegionInfo"), 0}}
-	for _, v := range validators {
-		// (table, key) are the first and second []byte parameters
-		tableP, keyP := paramOfType(v.fn, "[]byte", 0), paramOfType(v.fn, "[]byte", 1)
-		src := kit.Calls(v.fn, v.source)
-		if len(src) != 1 || tableP == nil || keyP == nil {
-			c.Unk(v.fn, "validator-shape", v.fn.Pos(), "validator no longer obtains the region from "+kit.ShortName(v.source)+" with parameters table/key")
-			continue
-		}
-		R := kit.ExtractOf(src[0].Value(), v.idx)
-		isStopOfR := func(x ssa.Value) bool {
-			call, ok := kit.Strip(x).(*ssa.Call)
-			return ok && kit.CalleeName(call) == hrpcRI+"StopKey" && kit.Same(call.Call.Value, R)
-		}
-		isFQT := func(x ssa.Value) bool {
-			call, ok := kit.Strip(x).(*ssa.Call)
-			return ok && kit.CalleeName(call) == kit.M("", "", "fullyQualifiedTable") && kit.Same(call.Call.Args[0], R)
-		}
-		// the guard chain: a1 = "stop key is not empty", a2 = "key >= stop"; for each the
-		// successor on which the atom holds (whatever polarity the condition is written in)
-		var a1, a2 *ssa.If
-		var a1Yes, a2Yes *ssa.BasicBlock
-		kit.Instrs(v.fn, func(in ssa.Instruction) {
-			iff, ok := in.(*ssa.If)
-			if !ok {
-				return
-			}
-			for _, pol := range []bool{true, false} {
-				cmp, ok := kit.CanonCmp(iff.Cond, pol)
-				if !ok {
-					continue
-				}
-				yes := kit.SuccOnTrue(iff)
-				if !pol {
-					yes = kit.SuccOnFalse(iff)
-				}
-				if !cmp.Bytes && (cmp.Op == token.NEQ || cmp.Op == token.GTR) {
-					if l := kit.LenOf(cmp.X); l != nil && isStopOfR(l) {
-						if k, ok := kit.ConstInt(cmp.Y); ok && k == 0 {
-							a1, a1Yes = iff, yes
-						}
-					}
-				}
-				if cmp.Bytes && ((cmp.Op == token.GEQ && cmp.X == ssa.Value(keyP) && isStopOfR(cmp.Y)) || (cmp.Op == token.LEQ && isStopOfR(cmp.X) && cmp.Y == ssa.Value(keyP))) {
-					a2, a2Yes = iff, yes
-				}
-			}
-		})
-		nRet := 0
-		kit.Instrs(v.fn, func(in ssa.Instruction) {
-			r, ok := in.(*ssa.Return)
-			if !ok || !kit.Same(r.Results[0], R) {
-				return
-			}
-			nRet++
-			tableOK := false
-			for _, f := range kit.FactsAt(r.Block()) {
-				if cmp, ok := kit.CanonCmp(f.Cond, f.Pol); ok && cmp.Bytes && cmp.Op == token.EQL {
-					if (isFQT(cmp.X) && cmp.Y == ssa.Value(tableP)) || (isFQT(cmp.Y) && cmp.X == ssa.Value(tableP)) {
-						tableOK = true
-					}
-				}
-			}
-			c.Check(tableOK, v.fn, "table-check", r.Pos(), "the region is returned only if fullyQualifiedTable(region) equals the requested table", "a region of another table (the last region of a same-prefixed table) can be returned for this key")
-			stopOK := a1 != nil && a2 != nil && a1.Block().Dominates(r.Block()) && kit.EdgeDominates(a1.Block(), a1Yes, a2.Block())
-			why := "no guard of the canonical form len(region.StopKey()) != 0 && key >= region.StopKey() found"
-			if stopOK {
-				e := kit.PathFromBlock(a2Yes, kit.PathQuery{Target: func(x ssa.Instruction) bool { return x == ssa.Instruction(r) }})
-				if e != nil {
-					stopOK = false
-					why = "the region is still returned on the edge key >= stop"
-				}
-			}
-			c.Check(stopOK, v.fn, "stop-key-check", r.Pos(), "the region is returned only if NOT(len(stop) != 0 && key >= stop)", "a key at or beyond the region's stop key can be routed to it (it belongs to the next region): "+why)
-		})
-		if nRet == 0 {
-			c.Unk(v.fn, "validator-return", v.fn.Pos(), "the validator no longer returns the located region")
-		}
-	}
+	lookupValidators(c, grc, ml)
 	// the call's own table/key flow unchanged into the validators
 	{
 		rpcP := paramOfType(grf, "/hrpc.Call", 0)
@@ -415,6 +420,7 @@ func runC01(c *kit.Ctx) {
 
 	// ---- R5 ---------------------------------------------------------------
 	c.StartRule("R5", "the cache is ordered by region.Compare; lookup returns the predecessor", 2)
+	overlapSearch(c)
 	{
 		treeF := p.Field("", "keyRegionCache", "regions")
 		cmpFn := p.Func("region", "", "Compare")
@@ -462,5 +468,94 @@ func runC01(c *kit.Ctx) {
 			})
 		})
 		c.Check(good && seeks == 1, kget, "predecessor", kget.Pos(), "get seeks to the key and returns the previous entry", "keyRegionCache.get no longer returns the predecessor of the search key")
+	}
+}
+
+// lookupValidators: both places that hand out a region for (table, key) - the cache hit and the
+// hbase:meta lookup - return it only if it is of that table and key < stop key. Shared by C01.R3
+// and C12.R4 (a batch call is grouped under the region this lookup returned).
+func lookupValidators(c *kit.Ctx, grc, ml *ssa.Function) {
+	validators := []struct {
+		fn     *ssa.Function
+		source string
+		idx    int
+	}{{grc, kit.M("", "*keyRegionCache", "get"), 1}, {ml, kit.M("region", "", "ParseRegionInfo"), 0}}
+	for _, v := range validators {
+		// (table, key) are the first and second []byte parameters
+		tableP, keyP := paramOfType(v.fn, "[]byte", 0), paramOfType(v.fn, "[]byte", 1)
+		src := kit.Calls(v.fn, v.source)
+		if len(src) != 1 || tableP == nil || keyP == nil {
+			c.Unk(v.fn, "validator-shape", v.fn.Pos(), "validator no longer obtains the region from "+kit.ShortName(v.source)+" with parameters table/key")
+			continue
+		}
+		R := kit.ExtractOf(src[0].Value(), v.idx)
+		isStopOfR := func(x ssa.Value) bool {
+			call, ok := kit.Strip(x).(*ssa.Call)
+			return ok && kit.CalleeName(call) == hrpcRI+"StopKey" && kit.Same(call.Call.Value, R)
+		}
+		isFQT := func(x ssa.Value) bool {
+			call, ok := kit.Strip(x).(*ssa.Call)
+			return ok && kit.CalleeName(call) == kit.M("", "", "fullyQualifiedTable") && kit.Same(call.Call.Args[0], R)
+		}
+		// the guard chain: a1 = "stop key is not empty", a2 = "key >= stop"; for each the
+		// successor on which the atom holds (whatever polarity the condition is written in)
+		var a1, a2 *ssa.If
+		var a1Yes, a2Yes *ssa.BasicBlock
+		kit.Instrs(v.fn, func(in ssa.Instruction) {
+			iff, ok := in.(*ssa.If)
+			if !ok {
+				return
+			}
+			for _, pol := range []bool{true, false} {
+				cmp, ok := kit.CanonCmp(iff.Cond, pol)
+				if !ok {
+					continue
+				}
+				yes := kit.SuccOnTrue(iff)
+				if !pol {
+					yes = kit.SuccOnFalse(iff)
+				}
+				if !cmp.Bytes && (cmp.Op == token.NEQ || cmp.Op == token.GTR) {
+					if l := kit.LenOf(cmp.X); l != nil && isStopOfR(l) {
+						if k, ok := kit.ConstInt(cmp.Y); ok && k == 0 {
+							a1, a1Yes = iff, yes
+						}
+					}
+				}
+				if cmp.Bytes && ((cmp.Op == token.GEQ && cmp.X == ssa.Value(keyP) && isStopOfR(cmp.Y)) || (cmp.Op == token.LEQ && isStopOfR(cmp.X) && cmp.Y == ssa.Value(keyP))) {
+					a2, a2Yes = iff, yes
+				}
+			}
+		})
+		nRet := 0
+		kit.Instrs(v.fn, func(in ssa.Instruction) {
+			r, ok := in.(*ssa.Return)
+			if !ok || !kit.Same(r.Results[0], R) {
+				return
+			}
+			nRet++
+			tableOK := false
+			for _, f := range kit.FactsAt(r.Block()) {
+				if cmp, ok := kit.CanonCmp(f.Cond, f.Pol); ok && cmp.Bytes && cmp.Op == token.EQL {
+					if (isFQT(cmp.X) && cmp.Y == ssa.Value(tableP)) || (isFQT(cmp.Y) && cmp.X == ssa.Value(tableP)) {
+						tableOK = true
+					}
+				}
+			}
+			c.Check(tableOK, v.fn, "table-check", r.Pos(), "the region is returned only if fullyQualifiedTable(region) equals the requested table", "a region of another table (the last region of a same-prefixed table) can be returned for this key")
+			stopOK := a1 != nil && a2 != nil && a1.Block().Dominates(r.Block()) && kit.EdgeDominates(a1.Block(), a1Yes, a2.Block())
+			why := "no guard of the canonical form len(region.StopKey()) != 0 && key >= region.StopKey() found"
+			if stopOK {
+				e := kit.PathFromBlock(a2Yes, kit.PathQuery{Target: func(x ssa.Instruction) bool { return x == ssa.Instruction(r) }})
+				if e != nil {
+					stopOK = false
+					why = "the region is still returned on the edge key >= stop"
+				}
+			}
+			c.Check(stopOK, v.fn, "stop-key-check", r.Pos(), "the region is returned only if NOT(len(stop) != 0 && key >= stop)", "a key at or beyond the region's stop key can be routed to it (it belongs to the next region): "+why)
+		})
+		if nRet == 0 {
+			c.Unk(v.fn, "validator-return", v.fn.Pos(), "the validator no longer returns the located region")
+		}
 	}
 }
